@@ -35,15 +35,19 @@ def c18(tier):
     r3 = tlc("ramfs", "RamLTS", "RamLTS_sim.cfg", workers=1, timeout=1500, printed_to=p2,
              simulate="num=%d" % (400 if q else 4000), depth=45, extra=["-seed", str(vlib.seed())])
     ck.cov["tlc_runs"].append({"cfg": "RamLTS_sim.cfg -simulate", "edges_emitted": r3.nprinted, "wall_s": round(r3.wall, 1)})
+    # goal-directed behaviours (TLC refutes "never reached"): a walk two levels up and down into another branch
+    p3 = os.path.join(OUT, "ram-goal-%d.lts" % os.getpid())
+    rg, ng = vlib.goal_lts("ramfs", "RamFS", "RamFS_goal_upupdown.cfg", ["kind", "child", "data", "tab"], p3)
+    ck.cov["tlc_runs"].append({"cfg": "RamFS_goal_upupdown.cfg", "goal_reached_via": rg.violation, "steps": ng})
     traces = 0
     try:
-        for p, nr in ((p1, 200 if q else 2000), (p2, 100 if q else 1000)):
+        for p, nr in ((p1, 200 if q else 2000), (p2, 100 if q else 1000), (p3, 2)):
             doc = harness(["ramfs", "-lts", p, "-random", str(nr), "-depth", "40"], timeout=2400)
             _ok(doc, "ramfs")
             traces += doc["extra"].get("histories", 0)
             ck.take(doc)
     finally:
-        for p in (p1, p2):
+        for p in (p1, p2, p3):
             if os.path.exists(p):
                 os.unlink(p)
     # concurrent sessions
